@@ -994,6 +994,8 @@ end C04
 namespace Residue
 
 structure St where
+  /-- `pre_start` was entered: the actor exists for the outside world -/
+  entered : Bool := false
   /-- the spawn of this actor did not produce a running actor -/
   failed : Bool := false
   deriving DecidableEq, Repr, Inhabited
@@ -1018,9 +1020,12 @@ def next (s : St) : Ev → Except String St
     match r with
     | .ok => if s.failed then .error "residue.spawn-ok-after-failure" else .ok s
     | .registered => .ok s
-    | _ => .ok { s with failed := true }
+    -- (a thread-local actor whose link is refused fails before `pre_start`: nobody ever saw it)
+    | _ => .ok { s with failed := s.entered }
   | .dropped => .ok { s with failed := true }
-  | .enter _ _ => if s.failed then .error "residue.callback-after-failed-spawn" else .ok s
+  | .enter cb _ =>
+    if s.failed then .error "residue.callback-after-failed-spawn"
+    else .ok { s with entered := s.entered || cb == .preStart }
   | .tick _ => if s.failed then .error "residue.callback-after-failed-spawn" else .ok s
   | .exit _ _ => if s.failed then .error "residue.callback-after-failed-spawn" else .ok s
   | .emit _ _ => if s.failed then .error "residue.supervision-event" else .ok s
